@@ -36,9 +36,9 @@ CHECKS = {
          "value menu of 6 (quick) / 10 (thorough) shapes", "§3 C09", "api"),
  "C10": ("model_checking", "explicit-state BFS on the real code; whole-object snapshot equality on every refused transition",
          "Every throwing transition met by the mutator, precondition, parameter and loaded-object alphabets (including partly-invalid arguments, ragged frames, refused declarations at the capacity limits) must leave the full snapshot (header, parameters, frames, caller frames, aliasing) identical.",
-         "rides on the alphabets of C05/C07/C09 and on the 'loaded' roots", "§3 C10", "api"),
+         "rides on the alphabets of C05/C07/C09, on the 'loaded' roots and on 'wild' (the mutator alphabet without any shape guard, incl. hand-edited mandatory parameters)", "§3 C10", "api"),
  "C13": ("model_checking", "explicit-state BFS on the real code built with ASan/UBSan/_GLIBCXX_ASSERTIONS; sanitizer is the oracle on every transition, probe and destructor",
-         "The seven engine-A alphabets (mutators, frames/registers, preconditions, parameters, look-ups, construction, edits of loaded objects) are re-explored with the address/undefined sanitizers and libstdc++ assertions; every distinct state is additionally printed, saved, reloaded and destroyed; recoverable reports are attributed to the transition, fatal ones through the worker breadcrumb.",
+         "The eight engine-A alphabets (mutators, frames/registers, preconditions, parameters, look-ups, construction, edits of loaded objects, unguarded mutators) are re-explored with the address/undefined sanitizers and libstdc++ assertions; every distinct state is additionally printed, saved, reloaded and destroyed; recoverable reports are attributed to the transition, fatal ones through the worker breadcrumb.",
          "ASan-invisible errors (intra-object overflow) out of reach; file-space inputs are covered by C02/C04/C16 runs", "§3 C13", "api"),
  "C14": ("model_checking", "explicit-state BFS on the real code; per-state save/save probe, three-process MALLOC_PERTURB_ digest join, memcheck pass",
          "In every reachable state the object is snapshotted, saved to a fresh path, saved again over an existing longer file, and snapshotted again (purity, repeatability, bytes determined by the object alone); the exploration is repeated in three processes whose fresh heap bytes differ (MALLOC_PERTURB_ unset/0x55/0xAA) and the per-state file digests are joined on the state key; a shallower exploration runs entirely under valgrind memcheck and counts errors around each save.",
